@@ -18,3 +18,9 @@ OBLIGATIONS = [
     ob("box.f.seal", "hf_seal", 1, ["crypto_box_seal", "_crypto_box_seal_nonce"], "sealed box layout: fresh ephemeral key pair, nonce = BLAKE2b-192(epk || pk), epk || box_easy(...)", ["C01", "C18", "C12"]),
     ob("box.f.seal_open", "hf_seal_open", 1, ["crypto_box_seal_open"], "seal_open: shorter than 48 bytes rejected; otherwise box_open_easy with the recomputed nonce and the embedded ephemeral key", ["C02", "C01", "C12"]),
 ]
+
+for entry, props, what in (("hf_nacl_seal", ["C01", "C12"], "NaCl zero-padded secretbox: mlen < 32 refused; XSalsa20 XOR of the padded message; Poly1305 over c[32..) keyed by c[0..32); 16 zero bytes then the tag"),
+                           ("hf_nacl_open", ["C02", "C01", "C12"], "NaCl secretbox open: clen < 32 rejected; tag verified with the first 32 stream bytes before decrypting; failure => -1, no key stream applied, output untouched")):
+    OBLIGATIONS.append({"name": "box.f." + entry[3:], "props": props, "kind": "F", "tier": "quick", "src": "harness/nacl_box.c", "entry": entry,
+        "cbmc": ["--unwind", "40", "--unwinding-assertions", "--object-bits", "18"], "solver": "kissat", "timeout": 600, "functions": ["crypto_secretbox_xsalsa20poly1305" + ("_open" if entry.endswith("open") else "")],
+        "what": what, "assumes": ["crypto_stream_xsalsa20*, crypto_onetimeauth_poly1305{,_verify} are transcript stubs"], "bound": "none on iterations; values: length <= 65535"})
